@@ -317,7 +317,12 @@ unsigned char *ares_buf_finish_bin(ares_buf_t *buf, size_t *len)
 
   /* We don't want to return NULL except on failure, may be zero-length */
   if (buf->alloc_buf == NULL && ares_buf_ensure_space(buf, 1) != ARES_SUCCESS) {
-    return NULL; /* LCOV_EXCL_LINE: OutOfMemory */
+    /* LCOV_EXCL_START: OutOfMemory */
+    /* The buffer is documented as invalidated by this call and callers treat
+     * it as consumed, so it must not be left allocated */
+    ares_buf_destroy(buf);
+    return NULL;
+    /* LCOV_EXCL_STOP */
   }
   ptr  = buf->alloc_buf;
   *len = buf->data_len;
